@@ -18,7 +18,7 @@ def shapes(tier, name):
     if tier == 'thorough':
         if name == 'pots':
             return [Shape(n=n, S=2, T=1, B=1, H=1, R=2) for n in (2, 3, 4, 5)]
-        return [Shape(n=n, S=2, T=t, B=b, H=1, R=2, subpots_cap=4) for n, b, t in ((2, 1, 2), (3, 1, 1), (3, 1, 2), (2, 2, 2), (4, 1, 1))]
+        return [Shape(n=n, S=2, T=t, B=b, H=1, R=2, subpots_cap=4) for n, b, t in ((2, 1, 2), (3, 1, 1), (3, 1, 2), (2, 2, 1), (4, 1, 1))]
     if name == 'pots':
         return [Shape(n=n, S=2, T=1, B=1, H=1, R=2) for n in (2, 3, 4)]
     return [Shape(n=n, S=2, T=t, B=1, H=1, R=2) for n, t in ((2, 2), (3, 1))]
